@@ -4,15 +4,6 @@ From WH.Model Require Import Mendel.
 Import ListNotations.
 Local Open Scope nat_scope.
 
-(* ------------------------------------------------------------------ well-formed (acyclic) pedigrees *)
-(* n individuals, triples ts; rk is a topological numbering: parents are numbered below their child *)
-Record wf_ped (n : nat) (ts : list triple) (rk : nat -> nat) : Prop := {
-  wf_idx : forall tr, In tr ts -> tr_father tr < n /\ tr_mother tr < n /\ tr_child tr < n;
-  wf_child_once : NoDup (map tr_child ts);
-  wf_rank : forall tr, In tr ts -> rk (tr_father tr) < rk (tr_child tr) /\ rk (tr_mother tr) < rk (tr_child tr);
-  wf_rank_bound : forall i, i < n -> rk i < n
-}.
-
 (* ------------------------------------------------------------------ triple_of *)
 Lemma triple_of_some : forall ts k0 i k tr,
   triple_of ts k0 i = Some (k, tr) ->
@@ -105,25 +96,35 @@ Qed.
 
 (* the mechanism of the property: the child's haplotype 0 shares its partition with the father's
    haplotype [!(bit 2k)], its haplotype 1 with the mother's haplotype [!(bit 2k+1)] *)
+Lemma child_shares_fuel : forall fuel k tr, nth_error ts k = Some tr -> rk (tr_child tr) < fuel ->
+  exists pf pm,
+    h2p_rec ts tb fuel (tr_father tr) = Some pf /\
+    h2p_rec ts tb fuel (tr_mother tr) = Some pm /\
+    h2p_rec ts tb fuel (tr_child tr) = Some (sel pf (negb (tb (2 * k))), sel pm (negb (tb (2 * k + 1)))).
+Proof.
+  intros fuel k tr Hn Rc.
+  pose proof (nth_error_In _ _ Hn) as Hin.
+  destruct (wf_rank _ _ _ WF tr Hin) as [Rf Rm].
+  pose proof (triple_of_nodup ts 0 k tr (wf_child_once _ _ _ WF) Hn) as E. cbn [Nat.add] in E.
+  destruct fuel as [|fuel']; [lia|].
+  destruct (h2p_rec_terminates fuel' (tr_father tr)) as [pf Epf]; [left; lia|].
+  destruct (h2p_rec_terminates fuel' (tr_mother tr)) as [pm Epm]; [left; lia|].
+  exists pf, pm. split; [|split].
+  - apply (h2p_rec_mono _ _ _ Epf). lia.
+  - apply (h2p_rec_mono _ _ _ Epm). lia.
+  - cbn [h2p_rec]. rewrite E, Epf, Epm. reflexivity.
+Qed.
+
 Lemma child_shares_rec : forall k tr, nth_error ts k = Some tr ->
   exists pf pm,
     h2p_rec ts tb n (tr_father tr) = Some pf /\
     h2p_rec ts tb n (tr_mother tr) = Some pm /\
     h2p_rec ts tb n (tr_child tr) = Some (sel pf (negb (tb (2 * k))), sel pm (negb (tb (2 * k + 1)))).
 Proof.
-  intros k tr Hn.
+  intros k tr Hn. apply child_shares_fuel; [exact Hn|].
   pose proof (nth_error_In _ _ Hn) as Hin.
   destruct (wf_idx _ _ _ WF tr Hin) as (Hf & Hm & Hc).
-  destruct (wf_rank _ _ _ WF tr Hin) as [Rf Rm].
-  pose proof (wf_rank_bound _ _ _ WF _ Hc) as Rc.
-  pose proof (triple_of_nodup ts 0 k tr (wf_child_once _ _ _ WF) Hn) as E. cbn [Nat.add] in E.
-  destruct n as [|n']; [lia|].
-  destruct (h2p_rec_terminates n' (tr_father tr)) as [pf Epf]; [left; lia|].
-  destruct (h2p_rec_terminates n' (tr_mother tr)) as [pm Epm]; [left; lia|].
-  exists pf, pm. split; [|split].
-  - apply (h2p_rec_mono _ _ _ Epf). lia.
-  - apply (h2p_rec_mono _ _ _ Epm). lia.
-  - cbn [h2p_rec]. rewrite E, Epf, Epm. reflexivity.
+  now apply (wf_rank_bound _ _ _ WF).
 Qed.
 End Fuel.
 
@@ -146,3 +147,1052 @@ Theorem child_shares_partition : forall n ts rk, wf_ped n ts rk ->
     h2p n ts t (tr_mother tr) = Some pm /\
     h2p n ts t (tr_child tr) = Some (sel pf (negb (tbit t (2 * k))), sel pm (negb (tbit t (2 * k + 1)))).
 Proof. intros n ts rk WF t k tr Hn. unfold h2p. eapply child_shares_rec; eauto. Qed.
+
+(* ------------------------------------------------------------------ allowed assignments *)
+Lemma geno_eqb_eq : forall g h, geno_eqb g h = true <-> g = h.
+Proof.
+  induction g as [|a g IH]; intros [|b h]; cbn [geno_eqb]; split; intros H;
+    try reflexivity; try discriminate.
+  - apply andb_true_iff in H. destruct H as [H1 H2]. apply Z.eqb_eq in H1. apply IH in H2. now subst.
+  - inversion H; subst. rewrite Z.eqb_refl. cbn. now apply IH.
+Qed.
+
+Lemma in_enum : forall (a : N) m, In a (map N.of_nat (seq 0 m)) <-> N.to_nat a < m.
+Proof.
+  intros a m. rewrite in_map_iff. split.
+  - intros (x & Hx & Hin). apply in_seq in Hin. subst a. rewrite Nnat.Nat2N.id. lia.
+  - intros H. exists (N.to_nat a). split; [apply Nnat.N2Nat.id|]. apply in_seq. lia.
+Qed.
+
+Lemma compatible_spec : forall n hp gs ab,
+  compatible n hp gs ab = true <->
+  forall i, i < n -> exists p, hp i = Some p /\
+                     geno_of (alle hp ab i false) (alle hp ab i true) = nth i gs [].
+Proof.
+  intros n hp gs ab. unfold compatible. rewrite forallb_forall. split.
+  - intros H i Hi. specialize (H i). rewrite in_seq in H. specialize (H ltac:(lia)).
+    destruct (hp i) as [p|] eqn:E; [|discriminate]. exists p. split; [reflexivity|]. now apply geno_eqb_eq.
+  - intros H i Hi. apply in_seq in Hi. destruct (H i ltac:(lia)) as (p & E & G). rewrite E. now apply geno_eqb_eq.
+Qed.
+
+Lemma allowed_in : forall n ts t gs a,
+  In a (allowed n ts t gs) <->
+  N.to_nat a < 2 ^ part_count n ts /\ compatible n (h2p_tab n ts t) gs (abit a) = true.
+Proof. intros. unfold allowed. rewrite filter_In, in_enum. tauto. Qed.
+
+Lemma has_allowed_spec : forall n ts t gs,
+  has_allowed n ts t gs = true <-> exists a, In a (allowed n ts t gs).
+Proof.
+  intros. unfold has_allowed. rewrite existsb_exists. split.
+  - intros (a & Hin & Hc). exists a. apply allowed_in. split; [now apply in_enum|exact Hc].
+  - intros (a & Ha). apply allowed_in in Ha. exists a. split; [now apply in_enum|tauto].
+Qed.
+
+Lemma in_geno_of_sel : forall x y h, In (b2z (sel (x, y) h)) (geno_of x y).
+Proof. intros [] [] []; cbn; auto. Qed.
+
+Section ChildAlleles.
+Variables (n : nat) (ts : list triple) (rk : nat -> nat).
+Hypothesis WF : wf_ped n ts rk.
+
+(* for every transmission value and EVERY assignment (allowed or not): the child's two alleles are the
+   father's allele on the haplotype selected by bit 2k and the mother's on the one selected by bit 2k+1 *)
+Lemma alle_child : forall (t : N) (ab : nat -> bool) k tr, nth_error ts k = Some tr ->
+  alle (h2p n ts t) ab (tr_child tr) false = alle (h2p n ts t) ab (tr_father tr) (negb (tbit t (2 * k))) /\
+  alle (h2p n ts t) ab (tr_child tr) true = alle (h2p n ts t) ab (tr_mother tr) (negb (tbit t (2 * k + 1))).
+Proof.
+  intros t ab k tr Hn.
+  destruct (child_shares_partition n ts rk WF t k tr Hn) as (pf & pm & Ef & Em & Ec).
+  unfold alle. rewrite Ef, Em, Ec. cbn [sel fst snd]. split; reflexivity.
+Qed.
+
+Lemma alle_tab : forall t ab i h, i < n -> alle (h2p_tab n ts t) ab i h = alle (h2p n ts t) ab i h.
+Proof. intros. unfold alle. now rewrite h2p_tab_spec. Qed.
+
+Lemma allowed_geno : forall t gs a i, In a (allowed n ts t gs) -> i < n ->
+  geno_of (alle (h2p n ts t) (abit a) i false) (alle (h2p n ts t) (abit a) i true) = gof gs i.
+Proof.
+  intros t gs a i Ha Hi. apply allowed_in in Ha. destruct Ha as [_ Hc].
+  destruct (proj1 (compatible_spec _ _ _ _) Hc i Hi) as (p & _ & G).
+  rewrite !alle_tab in G by exact Hi. exact G.
+Qed.
+
+Theorem child_alleles_from_parents : forall (t : N) gs a k tr,
+  In a (allowed n ts t gs) -> nth_error ts k = Some tr ->
+  let al := alle (h2p n ts t) (abit a) in
+  al (tr_child tr) false = al (tr_father tr) (negb (tbit t (2 * k))) /\
+  al (tr_child tr) true = al (tr_mother tr) (negb (tbit t (2 * k + 1))) /\
+  In (b2z (al (tr_child tr) false)) (gof gs (tr_father tr)) /\
+  In (b2z (al (tr_child tr) true)) (gof gs (tr_mother tr)) /\
+  geno_of (al (tr_child tr) false) (al (tr_child tr) true) = gof gs (tr_child tr).
+Proof.
+  intros t gs a k tr Ha Hn al.
+  pose proof (nth_error_In _ _ Hn) as Hin.
+  destruct (wf_idx _ _ _ WF tr Hin) as (Hf & Hm & Hc).
+  destruct (alle_child t (abit a) k tr Hn) as [E0 E1]. fold al in E0, E1.
+  split; [exact E0|]. split; [exact E1|].
+  split; [|split].
+  - rewrite E0, <- (allowed_geno t gs a _ Ha Hf). fold al.
+    destruct (negb (tbit t (2 * k))).
+    + exact (in_geno_of_sel (al (tr_father tr) false) (al (tr_father tr) true) true).
+    + exact (in_geno_of_sel (al (tr_father tr) false) (al (tr_father tr) true) false).
+  - rewrite E1, <- (allowed_geno t gs a _ Ha Hm). fold al.
+    destruct (negb (tbit t (2 * k + 1))).
+    + exact (in_geno_of_sel (al (tr_mother tr) false) (al (tr_mother tr) true) true).
+    + exact (in_geno_of_sel (al (tr_mother tr) false) (al (tr_mother tr) true) false).
+  - exact (allowed_geno t gs a _ Ha Hc).
+Qed.
+End ChildAlleles.
+
+(* ------------------------------------------------------------------ get_alleles *)
+Lemma nth_map_seq : forall (A : Type) (f : nat -> A) n i d, i < n -> nth i (map f (seq 0 n)) d = f i.
+Proof.
+  intros A f n i d Hi. rewrite (nth_indep _ d (f 0)) by (now rewrite map_length, seq_length).
+  now rewrite map_nth, seq_nth.
+Qed.
+
+Lemma best_assignment_fold : forall pc cp (P : N -> Prop) al st,
+  (forall a, snd st = Some a -> P a /\ fst st = acost pc cp a) ->
+  (forall a, In a al -> P a) ->
+  forall a,
+    snd (fold_left (fun st a => if (acost pc cp a <=? fst st)%Z then (acost pc cp a, Some a) else st) al st) = Some a ->
+    P a /\ fst (fold_left (fun st a => if (acost pc cp a <=? fst st)%Z then (acost pc cp a, Some a) else st) al st)
+           = acost pc cp a.
+Proof.
+  induction al as [|x al IH]; intros st Hst Hal a Hr; cbn [fold_left] in *.
+  - now apply Hst.
+  - apply (IH _) in Hr; [exact Hr| |].
+    + intros b Hb. destruct (acost pc cp x <=? fst st)%Z.
+      * cbn [snd fst] in *. inversion Hb; subst. split; [apply Hal; now left|reflexivity].
+      * now apply Hst.
+    + intros b Hb. apply Hal. now right.
+Qed.
+
+Lemma best_assignment_in : forall pc cp al bc a,
+  best_assignment pc cp al = (bc, Some a) -> In a al /\ bc = acost pc cp a.
+Proof.
+  intros pc cp al bc a H. unfold best_assignment in H.
+  pose proof (best_assignment_fold pc cp (fun a => In a al) al (UMAX, None)) as F.
+  rewrite H in F. cbn [fst snd] in F. apply F; [discriminate|auto|reflexivity].
+Qed.
+
+(* the shape of the result: all individuals' alleles come from ONE allowed assignment; single
+   haplotypes may be overwritten by the tie code *)
+Lemma get_alleles_spec : forall n ts t cp gs l,
+  get_alleles n ts t cp gs = Alleles l ->
+  exists a,
+    In a (allowed n ts t gs) /\
+    l = map (fun i => (if is_tie (part_count n ts) cp (h2p_tab n ts t) (allowed n ts t gs) i false
+                       then TIE else b2z (alle (h2p_tab n ts t) (abit a) i false),
+                       if is_tie (part_count n ts) cp (h2p_tab n ts t) (allowed n ts t gs) i true
+                       then TIE else b2z (alle (h2p_tab n ts t) (abit a) i true)))
+            (seq 0 n).
+Proof.
+  intros n ts t cp gs l H. unfold get_alleles in H.
+  destruct (negb _); [discriminate|].
+  destruct (best_assignment _ _ _) as [bc [a|]] eqn:E; [|discriminate].
+  destruct (Z.eqb bc UMAX); [discriminate|]. inversion H; subst l. clear H.
+  apply best_assignment_in in E. destruct E as [Hin _].
+  exists a. split; [exact Hin|reflexivity].
+Qed.
+
+Lemma combine_seq_nth : forall (A : Type) (l : list A) k0 k x,
+  In (k, x) (combine (seq k0 (length l)) l) -> k0 <= k /\ nth_error l (k - k0) = Some x.
+Proof.
+  induction l as [|y l IH]; intros k0 k x H; cbn in H; [contradiction|].
+  destruct H as [H|H].
+  - inversion H; subst. split; [lia|]. now rewrite Nat.sub_diag.
+  - apply IH in H. destruct H as [Hle Hn]. split; [lia|].
+    replace (k - k0) with (S (k - S k0)) by lia. exact Hn.
+Qed.
+
+Lemma zmem_In : forall x l, In x l -> zmem x l = true.
+Proof.
+  intros x l H. unfold zmem. apply existsb_exists. exists x. split; [exact H|apply Z.eqb_refl].
+Qed.
+
+Lemma b2z_eqb_1 : forall x, Z.eqb (b2z x) 1 = x.
+Proof. now intros []. Qed.
+Lemma b2z_not_tie : forall x, Z.eqb (b2z x) TIE = false.
+Proof. now intros []. Qed.
+Lemma b2z_allele_ok : forall x, allele_ok (b2z x) = true.
+Proof. now intros []. Qed.
+
+(* transmission_consistent: whatever transmission value and bipartition costs the DP settles on, the
+   super-read alleles of the column satisfy the Mendelian predicate that the harness evaluates on the
+   implementation's output *)
+Theorem get_alleles_mendelian : forall n ts rk, wf_ped n ts rk ->
+  forall t cp gs l, get_alleles n ts t cp gs = Alleles l -> sr_column_ok n ts gs t l = true.
+Proof.
+  intros n ts rk WF t cp gs l H.
+  destruct (get_alleles_spec _ _ _ _ _ _ H) as (a & Ha & El).
+  set (tie := is_tie (part_count n ts) cp (h2p_tab n ts t) (allowed n ts t gs)) in *.
+  set (hp := h2p_tab n ts t) in *.
+  assert (Hnth : forall i, i < n -> nth i l (TIE, TIE) =
+            (if tie i false then TIE else b2z (alle hp (abit a) i false),
+             if tie i true then TIE else b2z (alle hp (abit a) i true))).
+  { intros i Hi. rewrite El. now rewrite nth_map_seq. }
+  unfold sr_column_ok. apply andb_true_iff. split; [apply andb_true_iff; split|].
+  - apply Nat.eqb_eq. rewrite El. now rewrite map_length, seq_length.
+  - apply forallb_forall. intros [k tr] Hin.
+    apply combine_seq_nth in Hin. destruct Hin as [_ Hn]. rewrite Nat.sub_0_r in Hn.
+    pose proof (nth_error_In _ _ Hn) as Hts.
+    destruct (wf_idx _ _ _ WF tr Hts) as (Hf & Hm & Hc).
+    destruct (child_alleles_from_parents n ts rk WF t gs a k tr Ha Hn) as (E0 & E1 & I0 & I1 & _).
+    assert (T : forall i h, i < n -> alle (h2p n ts t) (abit a) i h = alle hp (abit a) i h)
+      by (intros; symmetry; now apply alle_tab).
+    rewrite !T in E0 by assumption. rewrite !T in E1 by assumption.
+    rewrite !T in I0 by assumption. rewrite !T in I1 by assumption.
+    rewrite (Hnth _ Hc). cbn [fst snd]. apply andb_true_iff. split.
+    + unfold sr_parent_ok. destruct (tie (tr_child tr) false); [reflexivity|].
+      rewrite b2z_not_tie, b2z_allele_ok, (zmem_In _ _ I0). cbn [andb].
+      rewrite (Hnth _ Hf). destruct (negb (tbit t (2 * k))); cbn [sel fst snd].
+      * destruct (tie (tr_father tr) true); [reflexivity|]. rewrite E0, Z.eqb_refl. apply orb_true_r.
+      * destruct (tie (tr_father tr) false); [reflexivity|]. rewrite E0, Z.eqb_refl. apply orb_true_r.
+    + unfold sr_parent_ok. destruct (tie (tr_child tr) true); [reflexivity|].
+      rewrite b2z_not_tie, b2z_allele_ok, (zmem_In _ _ I1). cbn [andb].
+      rewrite (Hnth _ Hm). destruct (negb (tbit t (2 * k + 1))); cbn [sel fst snd].
+      * destruct (tie (tr_mother tr) true); [reflexivity|]. rewrite E1, Z.eqb_refl. apply orb_true_r.
+      * destruct (tie (tr_mother tr) false); [reflexivity|]. rewrite E1, Z.eqb_refl. apply orb_true_r.
+  - apply forallb_forall. intros i Hi. apply in_seq in Hi. assert (Hi' : i < n) by lia.
+    rewrite (Hnth _ Hi'). cbn [fst snd].
+    destruct (tie i false); [reflexivity|]. destruct (tie i true); [now rewrite b2z_not_tie|].
+    rewrite !b2z_not_tie, !b2z_allele_ok, !b2z_eqb_1. cbn [orb andb].
+    apply geno_eqb_eq. unfold hp. rewrite !alle_tab by exact Hi'.
+    now apply allowed_geno.
+Qed.
+
+(* ------------------------------------------------------------------ numbers from bit functions *)
+Fixpoint b2nat (l : list bool) : nat :=
+  match l with [] => 0 | b :: r => (if b then 1 else 0) + 2 * b2nat r end.
+
+Lemma b2nat_bound : forall l, b2nat l < 2 ^ length l.
+Proof.
+  induction l as [|b r IH]; cbn [b2nat length]; [cbn; lia|].
+  rewrite Nat.pow_succ_r'. destruct b; lia.
+Qed.
+
+Lemma testbit_b2nat : forall (f : nat -> bool) m s j,
+  N.testbit (N.of_nat (b2nat (map f (seq s m)))) (N.of_nat j) = if j <? m then f (s + j) else false.
+Proof.
+  intros f m. induction m as [|m IH]; intros s j.
+  - cbn. reflexivity.
+  - cbn [seq map b2nat].
+    replace (N.of_nat ((if f s then 1 else 0) + 2 * b2nat (map f (seq (S s) m))))
+      with (2 * N.of_nat (b2nat (map f (seq (S s) m))) + N.b2n (f s))%N
+      by (destruct (f s); cbn [N.b2n]; lia).
+    destruct j as [|j].
+    + cbn [N.of_nat]. rewrite N.testbit_0_r. now rewrite Nat.add_0_r.
+    + rewrite Nnat.Nat2N.inj_succ, N.testbit_succ_r, IH.
+      replace (S s + j) with (s + S j) by lia.
+      destruct (j <? m) eqn:E1, (S j <? S m) eqn:E2; try reflexivity;
+        [apply Nat.ltb_lt in E1; apply Nat.ltb_ge in E2; lia
+        |apply Nat.ltb_ge in E1; apply Nat.ltb_lt in E2; lia].
+Qed.
+
+Definition N_of_bits (f : nat -> bool) (m : nat) : N := N.of_nat (b2nat (map f (seq 0 m))).
+
+Lemma N_of_bits_spec : forall f m j, j < m -> N.testbit (N_of_bits f m) (N.of_nat j) = f j.
+Proof.
+  intros f m j Hj. unfold N_of_bits. rewrite testbit_b2nat.
+  apply Nat.ltb_lt in Hj. now rewrite Hj.
+Qed.
+
+Lemma N_of_bits_bound : forall f m, N.to_nat (N_of_bits f m) < 2 ^ m.
+Proof.
+  intros f m. unfold N_of_bits. rewrite Nnat.Nat2N.id.
+  pose proof (b2nat_bound (map f (seq 0 m))) as H. now rewrite map_length, seq_length in H.
+Qed.
+
+(* ------------------------------------------------------------------ counting roots *)
+Lemma filter_length_split : forall (A : Type) (f : A -> bool) l,
+  length (filter f l) + length (filter (fun x => negb (f x)) l) = length l.
+Proof.
+  induction l as [|x l IH]; cbn [filter length]; [reflexivity|].
+  destruct (f x); cbn [negb length]; lia.
+Qed.
+
+Lemma is_root_iff : forall ts i, is_root ts i = true <-> ~ In i (map tr_child ts).
+Proof.
+  intros ts i. unfold is_root. rewrite <- (triple_of_none ts 0 i).
+  destruct (triple_of ts 0 i); split; congruence.
+Qed.
+
+Lemma root_rank_lt : forall ts i j, i < j -> is_root ts i = true -> root_rank ts i < root_rank ts j.
+Proof.
+  intros ts i j Hij Hr. unfold root_rank.
+  replace j with (i + S (j - i - 1)) by lia.
+  rewrite seq_app, filter_app, app_length. cbn [seq filter Nat.add]. rewrite Hr. cbn [length]. lia.
+Qed.
+
+Lemma roots_count : forall n ts rk, wf_ped n ts rk -> root_rank ts n = n - length ts.
+Proof.
+  intros n ts rk WF. unfold root_rank.
+  pose proof (filter_length_split nat (is_root ts) (seq 0 n)) as H. rewrite seq_length in H.
+  assert (P : Permutation (filter (fun x => negb (is_root ts x)) (seq 0 n)) (map tr_child ts)).
+  { apply NoDup_Permutation.
+    - apply NoDup_filter, seq_NoDup.
+    - exact (wf_child_once _ _ _ WF).
+    - intros x. rewrite filter_In, in_seq. split.
+      + intros [_ Hx]. apply negb_true_iff in Hx.
+        destruct (in_dec Nat.eq_dec x (map tr_child ts)) as [Hi|Hi]; [exact Hi|].
+        apply is_root_iff in Hi. congruence.
+      + intros Hx. split.
+        * apply in_map_iff in Hx. destruct Hx as (tr & E & Hin). subst x.
+          destruct (wf_idx _ _ _ WF tr Hin) as (_ & _ & Hc). lia.
+        * apply negb_true_iff. destruct (is_root ts x) eqn:E; [|reflexivity].
+          apply is_root_iff in E. contradiction. }
+  apply Permutation_length in P. rewrite map_length in P. lia.
+Qed.
+
+Lemma length_ts_le : forall n ts rk, wf_ped n ts rk -> length ts <= n.
+Proof.
+  intros n ts rk WF.
+  assert (H : incl (map tr_child ts) (seq 0 n)).
+  { intros x Hx. apply in_map_iff in Hx. destruct Hx as (tr & E & Hin). subst x.
+    destruct (wf_idx _ _ _ WF tr Hin) as (_ & _ & Hc). apply in_seq. lia. }
+  apply (NoDup_incl_length (wf_child_once _ _ _ WF)) in H. now rewrite map_length, seq_length in H.
+Qed.
+
+(* every partition index is below partition_count *)
+Lemma h2p_range : forall n ts rk, wf_ped n ts rk -> forall tb fuel i p,
+  i < n -> h2p_rec ts tb fuel i = Some p ->
+  fst p < part_count n ts /\ snd p < part_count n ts.
+Proof.
+  intros n ts rk WF tb. induction fuel as [|fuel IH]; intros i p Hi H; cbn [h2p_rec] in H.
+  - destruct (triple_of ts 0 i) as [[k tr]|] eqn:E; [discriminate|]. injection H as Hp; subst p. cbn [fst snd].
+    assert (R : is_root ts i = true) by (unfold is_root; now rewrite E).
+    pose proof (root_rank_lt ts i n Hi R) as L. rewrite (roots_count _ _ _ WF) in L.
+    unfold part_count. lia.
+  - destruct (triple_of ts 0 i) as [[k tr]|] eqn:E.
+    + pose proof (triple_of_in _ _ _ _ _ E) as Hin.
+      destruct (wf_idx _ _ _ WF tr Hin) as (Hf & Hm & _).
+      destruct (h2p_rec ts tb fuel (tr_father tr)) as [pf|] eqn:Ef; [|discriminate].
+      destruct (h2p_rec ts tb fuel (tr_mother tr)) as [pm|] eqn:Em; [|discriminate].
+      injection H as Hp; subst p. cbn [fst snd].
+      destruct (IH _ _ Hf Ef) as [F0 F1]. destruct (IH _ _ Hm Em) as [M0 M1].
+      split; destruct (negb _); cbn [sel]; assumption.
+    + injection H as Hp; subst p. cbn [fst snd].
+      assert (R : is_root ts i = true) by (unfold is_root; now rewrite E).
+      pose proof (root_rank_lt ts i n Hi R) as L. rewrite (roots_count _ _ _ WF) in L.
+      unfold part_count. lia.
+Qed.
+
+Lemma h2p_rec_ext : forall ts tb tb', (forall j, j < 2 * length ts -> tb j = tb' j) ->
+  forall fuel i, h2p_rec ts tb fuel i = h2p_rec ts tb' fuel i.
+Proof.
+  intros ts tb tb' Hext. induction fuel as [|fuel IH]; intros i; cbn [h2p_rec]; [reflexivity|].
+  destruct (triple_of ts 0 i) as [[k tr]|] eqn:E; [|reflexivity].
+  rewrite !IH. apply triple_of_some in E. destruct E as (_ & Hn & _). rewrite Nat.sub_0_r in Hn.
+  assert (k < length ts) by (apply nth_error_Some; congruence).
+  rewrite (Hext (2 * k)) by lia. rewrite (Hext (2 * k + 1)) by lia. reflexivity.
+Qed.
+
+(* ------------------------------------------------------------------ conflict <-> no assignment *)
+Lemma dipbi_cases : forall g, g_dipbi g = true -> g = [0; 0]%Z \/ g = [1; 0]%Z \/ g = [1; 1]%Z.
+Proof.
+  intros g H. unfold g_dipbi in H. apply orb_true_iff in H. destruct H as [H|H].
+  - apply orb_true_iff in H. destruct H as [H|H]; apply geno_eqb_eq in H; auto.
+  - apply geno_eqb_eq in H. auto.
+Qed.
+
+Lemma dipbi_not_none : forall g, g_dipbi g = true -> g_none g = false.
+Proof. intros g H. destruct (dipbi_cases g H) as [E|[E|E]]; subst; reflexivity. Qed.
+
+Lemma In_zmem : forall x l, zmem x l = true -> In x l.
+Proof.
+  intros x l H. unfold zmem in H. apply existsb_exists in H. destruct H as (y & Hy & E).
+  apply Z.eqb_eq in E. now subst.
+Qed.
+
+(* => : an allowed assignment shows that the triple is not conflicting *)
+Lemma mc_false : forall x y gf gm,
+  In (b2z x) gf -> In (b2z y) gm -> mendelian_conflict gm gf (geno_of x y) = false.
+Proof.
+  intros x y gf gm Hx Hy. apply zmem_In in Hx. apply zmem_In in Hy. unfold mendelian_conflict.
+  destruct x, y; cbn [geno_of nth b2z] in *; rewrite ?Hx, ?Hy; cbn [andb];
+    try reflexivity.
+  - destruct (zmem 1 gm && zmem 0 gf); reflexivity.
+Qed.
+
+(* proof-level witnesses for <= : the phased alleles of every individual can be read off the
+   genotypes alone (no recursion): founders keep their as_vector order, a child gets
+   (allele from the father, allele from the mother) *)
+
+Definition orient (gf gm gc : geno) : bool * bool :=
+  if zmem (nth 0 gc 0%Z) gf && zmem (nth 1 gc 0%Z) gm then (g0 gc, g1 gc) else (g1 gc, g0 gc).
+
+Lemma orient_ok : forall gf gm gc,
+  g_dipbi gf = true -> g_dipbi gm = true -> g_dipbi gc = true ->
+  mendelian_conflict gm gf gc = false ->
+  In (b2z (fst (orient gf gm gc))) gf /\ In (b2z (snd (orient gf gm gc))) gm /\
+  geno_of (fst (orient gf gm gc)) (snd (orient gf gm gc)) = gc.
+Proof.
+  intros gf gm gc Hf Hm Hc.
+  destruct (dipbi_cases _ Hf) as [E|[E|E]]; subst gf;
+  destruct (dipbi_cases _ Hm) as [E|[E|E]]; subst gm;
+  destruct (dipbi_cases _ Hc) as [E|[E|E]]; subst gc;
+  vm_compute; intros H; try discriminate; repeat split; auto.
+Qed.
+
+Lemma g01_geno : forall g, g_dipbi g = true -> geno_of (g0 g) (g1 g) = g.
+Proof. intros g H. destruct (dipbi_cases _ H) as [E|[E|E]]; subst; reflexivity. Qed.
+
+Lemma in_geno_of_cases : forall w x y, In (b2z w) (geno_of x y) -> w = x \/ w = y.
+Proof.
+  intros [] [] []; cbn; intros H; auto; exfalso;
+    repeat (destruct H as [H|H]; [discriminate|]); exact H.
+Qed.
+
+Lemma find_unique : forall (f : nat -> bool) l i,
+  In i l -> f i = true -> (forall j, In j l -> f j = true -> j = i) -> find f l = Some i.
+Proof.
+  induction l as [|x l IH]; intros i Hin Hf Hu; [contradiction|]. cbn [find].
+  destruct (f x) eqn:E.
+  - f_equal. apply Hu; [now left|exact E].
+  - destruct Hin as [->|Hin]; [congruence|]. apply IH; auto. intros j Hj. apply Hu. now right.
+Qed.
+
+Lemma existsb_false_all : forall (A : Type) (f : A -> bool) l,
+  existsb f l = false -> forall x, In x l -> f x = false.
+Proof.
+  induction l as [|y l IH]; intros H x Hx; [contradiction|]. cbn [existsb] in H.
+  apply orb_false_iff in H. destruct H as [H1 H2]. destruct Hx as [->|Hx]; auto.
+Qed.
+
+Section Construct.
+Variables (n : nat) (ts : list triple) (rk : nat -> nat).
+Hypothesis WF : wf_ped n ts rk.
+Variable gs : list geno.
+Hypothesis DB : forall i, i < n -> g_dipbi (gof gs i) = true.
+Hypothesis NC : col_conflict ts gs = false.
+
+Definition ph (i : nat) : bool * bool :=
+  match triple_of ts 0 i with
+  | None => (g0 (gof gs i), g1 (gof gs i))
+  | Some (_, tr) => orient (gof gs (tr_father tr)) (gof gs (tr_mother tr)) (gof gs i)
+  end.
+
+(* bit j of the witness transmission value: select the parental haplotype that carries the allele the
+   child needs *)
+Definition tbw (j : nat) : bool :=
+  match nth_error ts (j / 2) with
+  | None => false
+  | Some tr =>
+      let par := if Nat.even j then tr_father tr else tr_mother tr in
+      let want := sel (ph (tr_child tr)) (negb (Nat.even j)) in
+      if Bool.eqb (snd (ph par)) want then false else true
+  end.
+
+(* bit p of the witness assignment: the founder owning partition p carries its genotype in as_vector order *)
+Definition abw (p : nat) : bool :=
+  match find (fun i => is_root ts i && (root_rank ts i =? p / 2)) (seq 0 n) with
+  | Some i => sel (ph i) (Nat.odd p)
+  | None => false
+  end.
+
+Lemma triple_no_conflict : forall tr, In tr ts ->
+  mendelian_conflict (gof gs (tr_mother tr)) (gof gs (tr_father tr)) (gof gs (tr_child tr)) = false.
+Proof.
+  intros tr Hin. unfold col_conflict in NC.
+  destruct (wf_idx _ _ _ WF tr Hin) as (Hf & Hm & Hc).
+  pose proof (existsb_false_all _ _ _ NC tr Hin) as H. cbn beta in H.
+  rewrite !dipbi_not_none in H by (apply DB; assumption). exact H.
+Qed.
+
+Lemma ph_geno : forall i, i < n -> geno_of (fst (ph i)) (snd (ph i)) = gof gs i.
+Proof.
+  intros i Hi. unfold ph. destruct (triple_of ts 0 i) as [[k tr]|] eqn:E.
+  - pose proof (triple_of_in _ _ _ _ _ E) as Hin.
+    pose proof (triple_of_some _ _ _ _ _ E) as (_ & _ & Hc). subst i.
+    destruct (wf_idx _ _ _ WF tr Hin) as (Hf & Hm & _).
+    apply orient_ok; try (apply DB; assumption). now apply triple_no_conflict.
+  - cbn [fst snd]. apply g01_geno. now apply DB.
+Qed.
+
+Lemma ph_child : forall k tr, nth_error ts k = Some tr ->
+  In (b2z (fst (ph (tr_child tr)))) (gof gs (tr_father tr)) /\
+  In (b2z (snd (ph (tr_child tr)))) (gof gs (tr_mother tr)).
+Proof.
+  intros k tr Hn. pose proof (nth_error_In _ _ Hn) as Hin.
+  destruct (wf_idx _ _ _ WF tr Hin) as (Hf & Hm & Hc).
+  unfold ph. rewrite (triple_of_nodup ts 0 k tr (wf_child_once _ _ _ WF) Hn).
+  destruct (orient_ok (gof gs (tr_father tr)) (gof gs (tr_mother tr)) (gof gs (tr_child tr)))
+    as (A & B & _); try (apply DB; assumption); [now apply triple_no_conflict|]. split; assumption.
+Qed.
+
+Lemma find_root : forall i, i < n -> is_root ts i = true ->
+  find (fun j => is_root ts j && (root_rank ts j =? root_rank ts i)) (seq 0 n) = Some i.
+Proof.
+  intros i Hi Hr. apply find_unique.
+  - apply in_seq. lia.
+  - now rewrite Hr, Nat.eqb_refl.
+  - intros j _ Hj. apply andb_true_iff in Hj. destruct Hj as [Rj Ej]. apply Nat.eqb_eq in Ej.
+    destruct (Nat.lt_trichotomy i j) as [L|[L|L]]; [|now symmetry|].
+    + pose proof (root_rank_lt ts i j L Hr). lia.
+    + pose proof (root_rank_lt ts j i L Rj). lia.
+Qed.
+
+Lemma sel_negb_tbw_even : forall k tr, nth_error ts k = Some tr ->
+  sel (ph (tr_father tr)) (negb (tbw (2 * k))) = fst (ph (tr_child tr)).
+Proof.
+  intros k tr Hn. pose proof (nth_error_In _ _ Hn) as Hin.
+  destruct (wf_idx _ _ _ WF tr Hin) as (Hf & Hm & Hc).
+  unfold tbw. replace (2 * k / 2) with k by (rewrite Nat.mul_comm, Nat.div_mul; lia).
+  rewrite Hn. replace (Nat.even (2 * k)) with true
+    by (symmetry; rewrite Nat.even_mul; reflexivity).
+  cbn [negb sel].
+  destruct (Bool.eqb (snd (ph (tr_father tr))) (fst (ph (tr_child tr)))) eqn:E.
+  - cbn [negb sel]. now apply eqb_prop.
+  - cbn [negb sel]. destruct (ph_child k tr Hn) as [A _].
+    rewrite <- (ph_geno _ Hf) in A. apply in_geno_of_cases in A. destruct A as [A|A]; [now symmetry|].
+    rewrite A, eqb_reflx in E. discriminate.
+Qed.
+
+Lemma sel_negb_tbw_odd : forall k tr, nth_error ts k = Some tr ->
+  sel (ph (tr_mother tr)) (negb (tbw (2 * k + 1))) = snd (ph (tr_child tr)).
+Proof.
+  intros k tr Hn. pose proof (nth_error_In _ _ Hn) as Hin.
+  destruct (wf_idx _ _ _ WF tr Hin) as (Hf & Hm & Hc).
+  unfold tbw. replace ((2 * k + 1) / 2) with k
+    by (rewrite Nat.mul_comm, Nat.div_add_l by lia; cbn; lia).
+  rewrite Hn. replace (Nat.even (2 * k + 1)) with false
+    by (symmetry; rewrite Nat.add_comm, Nat.even_add_mul_2; reflexivity).
+  cbn [negb sel].
+  destruct (Bool.eqb (snd (ph (tr_mother tr))) (snd (ph (tr_child tr)))) eqn:E.
+  - cbn [negb sel]. now apply eqb_prop.
+  - cbn [negb sel]. destruct (ph_child k tr Hn) as [_ A].
+    rewrite <- (ph_geno _ Hm) in A. apply in_geno_of_cases in A. destruct A as [A|A]; [now symmetry|].
+    rewrite A, eqb_reflx in E. discriminate.
+Qed.
+
+(* main claim: under the witness bits, the partitions of individual i carry exactly ph i *)
+Lemma witness_alleles : forall fuel i p, i < n -> h2p_rec ts tbw fuel i = Some p ->
+  abw (fst p) = fst (ph i) /\ abw (snd p) = snd (ph i).
+Proof.
+  assert (ROOT : forall i, i < n -> triple_of ts 0 i = None ->
+            abw (2 * root_rank ts i) = fst (ph i) /\ abw (2 * root_rank ts i + 1) = snd (ph i)).
+  { intros i Hi E. assert (R : is_root ts i = true) by (unfold is_root; now rewrite E).
+    unfold abw.
+    replace (2 * root_rank ts i / 2) with (root_rank ts i) by (rewrite Nat.mul_comm, Nat.div_mul; lia).
+    replace ((2 * root_rank ts i + 1) / 2) with (root_rank ts i)
+      by (rewrite Nat.mul_comm, Nat.div_add_l by lia; cbn; lia).
+    rewrite (find_root i Hi R).
+    replace (Nat.odd (2 * root_rank ts i)) with false
+      by (symmetry; unfold Nat.odd; rewrite Nat.even_mul; reflexivity).
+    replace (Nat.odd (2 * root_rank ts i + 1)) with true
+      by (symmetry; unfold Nat.odd; rewrite Nat.add_comm, Nat.even_add_mul_2; reflexivity).
+    split; reflexivity. }
+  induction fuel as [|fuel IH]; intros i p Hi H; cbn [h2p_rec] in H.
+  - destruct (triple_of ts 0 i) as [[k tr]|] eqn:E; [discriminate|].
+    injection H as Hp; subst p. cbn [fst snd]. now apply ROOT.
+  - destruct (triple_of ts 0 i) as [[k tr]|] eqn:E.
+    + pose proof (triple_of_in _ _ _ _ _ E) as Hin.
+      pose proof (triple_of_some _ _ _ _ _ E) as (_ & Hn & Hc). rewrite Nat.sub_0_r in Hn.
+      destruct (wf_idx _ _ _ WF tr Hin) as (Hf & Hm & _).
+      destruct (h2p_rec ts tbw fuel (tr_father tr)) as [pf|] eqn:Ef; [|discriminate].
+      destruct (h2p_rec ts tbw fuel (tr_mother tr)) as [pm|] eqn:Em; [|discriminate].
+      injection H as Hp; subst p. cbn [fst snd].
+      destruct (IH _ _ Hf Ef) as [F0 F1]. destruct (IH _ _ Hm Em) as [M0 M1].
+      pose proof (sel_negb_tbw_even k tr Hn) as S0. pose proof (sel_negb_tbw_odd k tr Hn) as S1.
+      rewrite Hc in S0, S1. rewrite <- S0, <- S1.
+      change (k + (k + 0)) with (2 * k).
+      split; [destruct (negb (tbw (2 * k)))|destruct (negb (tbw (2 * k + 1)))]; cbn [sel]; assumption.
+    + injection H as Hp; subst p. cbn [fst snd]. now apply ROOT.
+Qed.
+
+Definition t_wit : N := N_of_bits tbw (2 * length ts).
+Definition a_wit : N := N_of_bits abw (part_count n ts).
+
+Lemma witness_allowed : In a_wit (allowed n ts t_wit gs).
+Proof.
+  apply allowed_in. split; [apply N_of_bits_bound|].
+  apply compatible_spec. intros i Hi.
+  rewrite h2p_tab_spec by exact Hi. unfold h2p.
+  assert (X : h2p_rec ts (tbit t_wit) n i = h2p_rec ts tbw n i).
+  { apply h2p_rec_ext. intros j Hj. unfold tbit, t_wit. now apply N_of_bits_spec. }
+  destruct (h2p_rec_total n ts rk WF tbw i Hi) as [p Ep].
+  exists p. split; [congruence|].
+  assert (A : forall h, alle (h2p_tab n ts t_wit) (abit a_wit) i h = sel (ph i) h).
+  { intros h. unfold alle. rewrite h2p_tab_spec by exact Hi. unfold h2p. rewrite X, Ep.
+    destruct (h2p_range n ts rk WF tbw n i p Hi Ep) as [R0 R1].
+    destruct (witness_alleles n i p Hi Ep) as [W0 W1].
+    unfold abit, a_wit. destruct h; cbn [sel].
+    - rewrite N_of_bits_spec by exact R1. exact W1.
+    - rewrite N_of_bits_spec by exact R0. exact W0. }
+  rewrite !A. cbn [sel]. now apply ph_geno.
+Qed.
+
+Lemma t_wit_bound : N.to_nat t_wit < 4 ^ length ts.
+Proof.
+  unfold t_wit. pose proof (N_of_bits_bound tbw (2 * length ts)) as H.
+  rewrite Nat.pow_mul_r in H. exact H.
+Qed.
+End Construct.
+
+Lemma existsb_all_false : forall (A : Type) (f : A -> bool) l,
+  (forall x, In x l -> f x = false) -> existsb f l = false.
+Proof.
+  induction l as [|y l IH]; intros H; [reflexivity|]. cbn [existsb].
+  rewrite (H y) by now left. cbn. apply IH. intros x Hx. apply H. now right.
+Qed.
+
+Lemma allowed_no_conflict : forall n ts rk, wf_ped n ts rk ->
+  forall t gs a, In a (allowed n ts t gs) -> col_conflict ts gs = false.
+Proof.
+  intros n ts rk WF t gs a Ha. unfold col_conflict. apply existsb_all_false. intros tr Hin.
+  destruct (In_nth_error _ _ Hin) as [k Hn].
+  destruct (child_alleles_from_parents n ts rk WF t gs a k tr Ha Hn) as (_ & _ & I0 & I1 & G).
+  cbn zeta in I0, I1, G. rewrite <- G, (mc_false _ _ _ _ I0 I1). apply andb_false_r.
+Qed.
+
+(* conflict_iff_no_assignment, any acyclic pedigree: some transmission value has an allowed
+   assignment iff no triple has a Mendelian conflict *)
+Theorem conflict_iff_no_assignment : forall n ts rk gs, wf_ped n ts rk ->
+  (forall i, i < n -> g_dipbi (gof gs i) = true) ->
+  ((exists t a, N.to_nat t < 4 ^ length ts /\ In a (allowed n ts t gs)) <-> col_conflict ts gs = false).
+Proof.
+  intros n ts rk gs WF DB. split.
+  - intros (t & a & _ & Ha). eapply allowed_no_conflict; eauto.
+  - intros NC. exists (t_wit ts gs), (a_wit n ts gs). split.
+    + apply t_wit_bound.
+    + eapply witness_allowed; eauto.
+Qed.
+
+Theorem conflict_no_assignment_any_t : forall n ts rk gs, wf_ped n ts rk ->
+  col_conflict ts gs = true -> forall t, allowed n ts t gs = [].
+Proof.
+  intros n ts rk gs WF C t. destruct (allowed n ts t gs) as [|a r] eqn:E; [reflexivity|].
+  assert (Ha : In a (allowed n ts t gs)) by (rewrite E; now left).
+  rewrite (allowed_no_conflict n ts rk WF t gs a Ha) in C. discriminate.
+Qed.
+
+(* the executable conflict oracle used on the implementation = find_mendelian_conflicts *)
+Theorem no_assignment_iff_conflict : forall n ts rk gs, wf_ped n ts rk ->
+  (forall i, i < n -> g_dipbi (gof gs i) = true) ->
+  no_assignment n ts gs = col_conflict ts gs.
+Proof.
+  intros n ts rk gs WF DB. destruct (col_conflict ts gs) eqn:C.
+  - unfold no_assignment. apply forallb_forall. intros x _. apply negb_true_iff.
+    destruct (has_allowed n ts (N.of_nat x) gs) eqn:E; [|reflexivity].
+    apply has_allowed_spec in E. destruct E as [a Ha].
+    rewrite (allowed_no_conflict n ts rk WF _ gs a Ha) in C. discriminate.
+  - destruct (no_assignment n ts gs) eqn:E; [|reflexivity]. exfalso.
+    unfold no_assignment in E. rewrite forallb_forall in E.
+    specialize (E (N.to_nat (t_wit ts gs))). rewrite in_seq in E.
+    pose proof (t_wit_bound ts gs). specialize (E ltac:(lia)).
+    rewrite Nnat.N2Nat.id in E. apply negb_true_iff in E.
+    assert (X : has_allowed n ts (t_wit ts gs) gs = true).
+    { apply has_allowed_spec. exists (a_wit n ts gs). eapply witness_allowed; eauto. }
+    congruence.
+Qed.
+
+(* the trio form of the statement: mendelian_conflict gm gf gc = true <-> no transmission value has
+   an allowed assignment *)
+Theorem trio_conflict_iff : forall n f m c rk gs, wf_ped n [(f, m, c)] rk ->
+  (forall i, i < n -> g_dipbi (gof gs i) = true) ->
+  (mendelian_conflict (gof gs m) (gof gs f) (gof gs c) = true <-> forall t, allowed n [(f, m, c)] t gs = []).
+Proof.
+  intros n f m c rk gs WF DB.
+  assert (Hin : In (f, m, c) [(f, m, c)]) by now left.
+  destruct (wf_idx _ _ _ WF _ Hin) as (Hf & Hm & Hc). cbn in Hf, Hm, Hc.
+  assert (CC : col_conflict [(f, m, c)] gs = mendelian_conflict (gof gs m) (gof gs f) (gof gs c)).
+  { unfold col_conflict. cbn [existsb tr_father tr_mother tr_child fst snd].
+    rewrite !dipbi_not_none by (apply DB; assumption). cbn. apply orb_false_r. }
+  split.
+  - intros H t. apply (conflict_no_assignment_any_t n _ rk gs WF). congruence.
+  - intros H. destruct (mendelian_conflict _ _ _) eqn:E; [reflexivity|]. exfalso.
+    pose proof (witness_allowed n _ rk WF gs DB CC) as W. rewrite H in W. exact W.
+Qed.
+
+(* ------------------------------------------------------------------ the exception of get_alleles *)
+Lemma h2p_tab_all_some : forall n ts rk, wf_ped n ts rk -> forall t,
+  forallb (fun i => match h2p_tab n ts t i with Some _ => true | None => false end) (seq 0 n) = true.
+Proof.
+  intros n ts rk WF t. apply forallb_forall. intros i Hi. apply in_seq in Hi.
+  rewrite h2p_tab_spec by lia. unfold h2p.
+  destruct (h2p_rec_total n ts rk WF (tbit t) i ltac:(lia)) as [p ->]. reflexivity.
+Qed.
+
+Lemma best_assignment_some : forall pc cp al st,
+  (exists a, snd st = Some a) ->
+  exists a, snd (fold_left (fun st a => if (acost pc cp a <=? fst st)%Z then (acost pc cp a, Some a) else st) al st) = Some a.
+Proof.
+  induction al as [|x al IH]; intros st Hst; cbn [fold_left]; [exact Hst|].
+  apply IH. destruct (acost pc cp x <=? fst st)%Z; [eexists; reflexivity|exact Hst].
+Qed.
+
+Theorem get_alleles_conflict_iff : forall n ts rk, wf_ped n ts rk -> forall t cp gs,
+  (forall a, (0 <= acost (part_count n ts) cp a < UMAX)%Z) ->
+  (get_alleles n ts t cp gs = Conflict <-> allowed n ts t gs = []).
+Proof.
+  intros n ts rk WF t cp gs B. unfold get_alleles. rewrite (h2p_tab_all_some n ts rk WF t). cbn [negb].
+  split.
+  - intros H. destruct (allowed n ts t gs) as [|x al] eqn:E; [reflexivity|]. exfalso.
+    unfold best_assignment in H. cbn [fold_left fst] in H.
+    assert (L : (acost (part_count n ts) cp x <=? UMAX)%Z = true) by (apply Z.leb_le; specialize (B x); lia).
+    rewrite L in H.
+    destruct (best_assignment_some (part_count n ts) cp al (acost (part_count n ts) cp x, Some x)) as [a Ea];
+      [eexists; reflexivity|].
+    destruct (fold_left _ al _) as [bc oa] eqn:F. cbn [snd] in Ea. subst oa.
+    pose proof (best_assignment_fold (part_count n ts) cp (fun _ => True) al
+                  (acost (part_count n ts) cp x, Some x)) as G.
+    rewrite F in G. cbn [fst snd] in G.
+    destruct (G ltac:(intros b Hb; inversion Hb; subst; split; [exact I|reflexivity]) ltac:(auto) a eq_refl) as [_ Ebc].
+    destruct (Z.eqb bc UMAX) eqn:U; [|discriminate].
+    apply Z.eqb_eq in U. specialize (B a). lia.
+  - intros E. rewrite E. reflexivity.
+Qed.
+
+(* ------------------------------------------------------------------ forced alleles *)
+Lemma bcfa_fold_none : forall (pred : N -> bool) (c : N -> Z) al cur,
+  (forall a, In a al -> pred a = false) ->
+  fold_left (fun cur a => if pred a && (c a <? cur)%Z then c a else cur) al cur = cur.
+Proof.
+  induction al as [|x al IH]; intros cur H; cbn [fold_left]; [reflexivity|].
+  rewrite (H x) by now left. cbn [andb]. apply IH. intros a Ha. apply H. now right.
+Qed.
+
+Lemma bcfa_fold_bounds : forall (pred : N -> bool) (c : N -> Z) al cur,
+  let r := fold_left (fun cur a => if pred a && (c a <? cur)%Z then c a else cur) al cur in
+  (r <= cur)%Z /\ (r = cur \/ exists a, In a al /\ r = c a) /\
+  (forall a, In a al -> pred a = true -> (r <= c a)%Z).
+Proof.
+  induction al as [|x al IH]; intros cur; cbn [fold_left].
+  - cbn zeta. split; [lia|]. split; [now left|]. intros a [].
+  - cbn zeta. destruct (pred x && (c x <? cur)%Z) eqn:E.
+    + apply andb_true_iff in E. destruct E as [Px Lx]. apply Z.ltb_lt in Lx.
+      destruct (IH (c x)) as (R1 & R2 & R3). cbn zeta in R1, R2, R3.
+      split; [lia|]. split.
+      * right. destruct R2 as [R2|(a & Ha & R2)]; [exists x; split; [now left|exact R2]|exists a; split; [now right|exact R2]].
+      * intros a [->|Ha] Pa; [exact R1|now apply R3].
+    + destruct (IH cur) as (R1 & R2 & R3). cbn zeta in R1, R2, R3.
+      split; [exact R1|]. split.
+      * destruct R2 as [R2|(a & Ha & R2)]; [now left|right; exists a; split; [now right|exact R2]].
+      * intros a [->|Ha] Pa; [|now apply R3].
+        rewrite Pa in E. cbn [andb] in E. apply Z.ltb_ge in E. lia.
+Qed.
+
+Lemma is_tie_forced : forall pc cp hp al i h v,
+  (forall a, (0 <= acost pc cp a < 2147483647)%Z) ->
+  (exists a, In a al) ->
+  (forall a, In a al -> alle hp (abit a) i h = v) ->
+  is_tie pc cp hp al i h = false.
+Proof.
+  intros pc cp hp al i h v B [a0 H0] F. unfold is_tie.
+  assert (NONE : bcfa pc cp hp al i h (negb v) = UMAX).
+  { unfold bcfa. apply bcfa_fold_none. intros a Ha. rewrite (F a Ha). now destruct v. }
+  assert (SOME : (0 <= bcfa pc cp hp al i h v < 2147483647)%Z).
+  { unfold bcfa.
+    destruct (bcfa_fold_bounds (fun a => Bool.eqb (alle hp (abit a) i h) v) (acost pc cp) al UMAX)
+      as (R1 & R2 & R3). cbn zeta beta in R1, R2, R3.
+    assert (P0 : Bool.eqb (alle hp (abit a0) i h) v = true) by (rewrite (F a0 H0); apply eqb_reflx).
+    pose proof (R3 a0 H0 P0) as L. pose proof (B a0) as B0.
+    destruct R2 as [R2|(a & Ha & R2)].
+    - pose proof (eq_refl : UMAX = 4294967295%Z) as U. lia.
+    - pose proof (B a). lia. }
+  apply Z.eqb_neq. destruct v; cbn [negb] in NONE; rewrite NONE; unfold to_int, UMAX; cbn [Z.ltb Z.compare Pos.compare Pos.compare_cont];
+    destruct (bcfa pc cp hp al i h _ <? 2147483648)%Z eqn:E; try (apply Z.ltb_ge in E; lia); lia.
+Qed.
+
+Lemma hom_geno_of : forall x y, g_hom (geno_of x y) = true -> x = y.
+Proof. intros [] []; cbn; intros H; congruence. Qed.
+Lemma het_geno_of : forall x y, g_het (geno_of x y) = true -> y = negb x.
+Proof. intros [] []; cbn; intros H; congruence. Qed.
+Lemma g0_geno_of_hom : forall x, g0 (geno_of x x) = x.
+Proof. now intros []. Qed.
+
+Lemma forced_child : forall n ts rk, wf_ped n ts rk -> forall t gs a k tr,
+  In a (allowed n ts t gs) -> nth_error ts k = Some tr ->
+  g_het (gof gs (tr_child tr)) = true ->
+  g_hom (gof gs (tr_father tr)) = true \/ g_hom (gof gs (tr_mother tr)) = true ->
+  alle (h2p n ts t) (abit a) (tr_child tr) false = forced_paternal gs tr /\
+  alle (h2p n ts t) (abit a) (tr_child tr) true = negb (forced_paternal gs tr).
+Proof.
+  intros n ts rk WF t gs a k tr Ha Hn Het Hom.
+  pose proof (nth_error_In _ _ Hn) as Hin.
+  destruct (wf_idx _ _ _ WF tr Hin) as (Hf & Hm & Hc).
+  destruct (child_alleles_from_parents n ts rk WF t gs a k tr Ha Hn) as (E0 & E1 & _ & _ & G).
+  cbn zeta in E0, E1, G.
+  pose proof (allowed_geno n ts t gs a _ Ha Hf) as Gf.
+  pose proof (allowed_geno n ts t gs a _ Ha Hm) as Gm.
+  rewrite <- G in Het. apply het_geno_of in Het.
+  unfold forced_paternal.
+  destruct (g_hom (gof gs (tr_father tr))) eqn:HF.
+  - rewrite <- Gf in HF. apply hom_geno_of in HF.
+    assert (X : alle (h2p n ts t) (abit a) (tr_child tr) false = g0 (gof gs (tr_father tr))).
+    { rewrite <- Gf, <- HF, g0_geno_of_hom, E0. destruct (negb (tbit t (2 * k))); congruence. }
+    split; [exact X|]. now rewrite Het, X.
+  - destruct Hom as [Hom|Hom]; [discriminate|].
+    rewrite <- Gm in Hom. apply hom_geno_of in Hom.
+    assert (X : alle (h2p n ts t) (abit a) (tr_child tr) true = g0 (gof gs (tr_mother tr))).
+    { rewrite <- Gm, <- Hom, g0_geno_of_hom, E1. destruct (negb (tbit t (2 * k + 1))); congruence. }
+    rewrite X. rewrite X in Het. split.
+    + rewrite Het. now rewrite negb_involutive.
+    + now rewrite negb_involutive.
+Qed.
+
+(* forced_without_reads (stated for ANY partition costs, in particular the all-zero costs of a column
+   without reads): child heterozygous, a parent homozygous => both child alleles are determined by
+   admissibility alone and neither is flagged as a tie *)
+Theorem forced_not_tie : forall n ts rk, wf_ped n ts rk -> forall t cp gs l k tr,
+  (forall a, (0 <= acost (part_count n ts) cp a < 2147483647)%Z) ->
+  get_alleles n ts t cp gs = Alleles l ->
+  nth_error ts k = Some tr ->
+  g_het (gof gs (tr_child tr)) = true ->
+  g_hom (gof gs (tr_father tr)) = true \/ g_hom (gof gs (tr_mother tr)) = true ->
+  nth_error l (tr_child tr) = Some (b2z (forced_paternal gs tr), b2z (negb (forced_paternal gs tr))).
+Proof.
+  intros n ts rk WF t cp gs l k tr B H Hn Het Hom.
+  pose proof (nth_error_In _ _ Hn) as Hin.
+  destruct (wf_idx _ _ _ WF tr Hin) as (Hf & Hm & Hc).
+  destruct (get_alleles_spec _ _ _ _ _ _ H) as (a & Ha & El).
+  assert (F : forall h b, In b (allowed n ts t gs) ->
+            alle (h2p_tab n ts t) (abit b) (tr_child tr) h = sel (forced_paternal gs tr, negb (forced_paternal gs tr)) h).
+  { intros h b Hb. rewrite alle_tab by exact Hc.
+    destruct (forced_child n ts rk WF t gs b k tr Hb Hn Het Hom) as [X0 X1]. destruct h; cbn [sel]; assumption. }
+  assert (T : forall h, is_tie (part_count n ts) cp (h2p_tab n ts t) (allowed n ts t gs) (tr_child tr) h = false).
+  { intros h. eapply is_tie_forced; [exact B|exists a; exact Ha|]. intros b Hb. apply (F h b Hb). }
+  rewrite El. rewrite nth_error_map.
+  assert (S : nth_error (seq 0 n) (tr_child tr) = Some (tr_child tr)).
+  { rewrite (nth_error_nth' _ 0) by (now rewrite seq_length). now rewrite seq_nth. }
+  rewrite S. cbn [option_map]. rewrite !T, !(F _ a Ha). reflexivity.
+Qed.
+
+(* ------------------------------------------------------------------ a column without reads costs nothing *)
+Lemma nth_map_const : forall (A B : Type) (d : B) (l : list A) p, nth p (map (fun _ => d) l) d = d.
+Proof. induction l as [|x l IH]; intros [|p]; cbn; auto. Qed.
+
+Lemma fold_add_zero : forall (A : Type) (f : A -> Z) (l : list A) acc,
+  (forall x, f x = 0%Z) -> fold_left (fun acc x => (acc + f x)%Z) l acc = acc.
+Proof.
+  induction l as [|x l IH]; intros acc H; cbn [fold_left]; [reflexivity|].
+  rewrite H, Z.add_0_r. now apply IH.
+Qed.
+
+Lemma acost_no_reads : forall n ts t a,
+  acost (part_count n ts) (cost_partition n ts t []) a = 0%Z.
+Proof.
+  intros n ts t a. unfold acost, cost_partition. cbn [fold_left].
+  apply (fold_add_zero nat (fun p => sel (nth p (map (fun _ => (0, 0)%Z) (seq 0 (part_count n ts))) (0, 0)%Z) (abit a p))).
+  intros p. rewrite nth_map_const. now destruct (abit a p).
+Qed.
+
+(* ------------------------------------------------------------------ row removal, solver column and writer together *)
+Lemma call_of_with_ps : forall ps (f : nat -> option (Z * Z)) n i,
+  call_of (with_ps ps (map f (seq 0 n))) i =
+  if i <? n then match f i with Some (a, b) => Some (a, b, ps) | None => None end else None.
+Proof.
+  intros ps f n i. unfold call_of, with_ps. rewrite map_map.
+  destruct (i <? n) eqn:E.
+  - apply Nat.ltb_lt in E. now rewrite nth_map_seq.
+  - apply Nat.ltb_ge in E. apply nth_overflow. now rewrite map_length, seq_length.
+Qed.
+
+Lemma write_call_some : forall ic sr g a b,
+  write_call ic sr g = Some (a, b) -> sr = Some (a, b) /\ allele_ok a = true /\ allele_ok b = true /\ ic = true.
+Proof.
+  intros ic [[a0 a1]|] g a b H; cbn [write_call] in H; [|discriminate].
+  destruct (allele_ok a0) eqn:A0; [|discriminate]. destruct (allele_ok a1) eqn:A1; [|discriminate].
+  cbn [andb] in H. destruct ic; [|discriminate]. cbn [andb] in H.
+  destruct (if geno_eqb _ _ then _ else _); [|discriminate].
+  inversion H; subst. auto.
+Qed.
+
+Lemma allele_ok_not_tie : forall a, allele_ok a = true -> Z.eqb a TIE = false.
+Proof.
+  intros a H. unfold allele_ok in H. apply orb_true_iff in H.
+  destruct H as [H|H]; apply Z.eqb_eq in H; subst; reflexivity.
+Qed.
+
+Lemma nth_error_nth_pair : forall (l : list (Z * Z)) i x d, nth_error l i = Some x -> nth i l d = x.
+Proof. intros l i x d H. now apply nth_error_nth. Qed.
+
+Lemma mendel_calls_from_sr : forall n ts gs t l ps,
+  (forall tr, In tr ts -> tr_father tr < n /\ tr_mother tr < n /\ tr_child tr < n) ->
+  sr_column_ok n ts gs t l = true ->
+  mendel_calls_ok ts gs (with_ps ps (map (fun i => write_call true (nth_error l i) (gof gs i)) (seq 0 n))) (Some t) = true.
+Proof.
+  intros n ts gs t l ps IDX SR.
+  unfold sr_column_ok in SR. apply andb_true_iff in SR. destruct SR as [SR _].
+  apply andb_true_iff in SR. destruct SR as [_ SR]. rewrite forallb_forall in SR.
+  unfold mendel_calls_ok. apply forallb_forall. intros [k tr] Hin.
+  specialize (SR (k, tr) Hin). cbn beta iota in SR.
+  apply combine_seq_nth in Hin. destruct Hin as [_ Hn]. rewrite Nat.sub_0_r in Hn.
+  destruct (IDX tr (nth_error_In _ _ Hn)) as (Hf & Hm & Hc).
+  set (cs := with_ps ps _).
+  assert (CALL : forall i a b p, i < n -> call_of cs i = Some (a, b, p) ->
+            nth i l (TIE, TIE) = (a, b) /\ allele_ok a = true /\ allele_ok b = true /\ p = ps).
+  { intros i a b p Hi H. unfold cs in H. rewrite call_of_with_ps in H.
+    apply Nat.ltb_lt in Hi. rewrite Hi in H.
+    destruct (write_call true (nth_error l i) (gof gs i)) as [[a' b']|] eqn:W; [|discriminate].
+    inversion H; subst. apply write_call_some in W. destruct W as (W & A & B & _).
+    split; [now apply nth_error_nth_pair|auto]. }
+  destruct (call_of cs (tr_child tr)) as [[[a b] p]|] eqn:EC; [|reflexivity].
+  destruct (CALL _ _ _ _ Hc EC) as (NC & Aa & Ab & ->).
+  rewrite NC in SR. cbn [fst snd] in SR. apply andb_true_iff in SR. destruct SR as [SF SM].
+  assert (PAR : forall x par bitpos, par < n -> allele_ok x = true ->
+            sr_parent_ok gs l t x par bitpos = true -> parent_ok gs cs (Some t) x ps par bitpos = true).
+  { intros x par bitpos Hp Ax S. unfold sr_parent_ok in S. rewrite (allele_ok_not_tie _ Ax), Ax in S.
+    cbn [andb] in S. apply andb_true_iff in S. destruct S as [S1 S2].
+    unfold parent_ok. rewrite S1. cbn [andb].
+    destruct (call_of cs par) as [[[x0 x1] pp]|] eqn:EP; [|reflexivity].
+    destruct (CALL _ _ _ _ Hp EP) as (NP & A0 & A1 & ->). rewrite Z.eqb_refl.
+    rewrite NP in S2.
+    assert (NT : Z.eqb (sel (x0, x1) (negb (tbit t bitpos))) TIE = false)
+      by (destruct (negb (tbit t bitpos)); cbn [sel fst snd]; now apply allele_ok_not_tie).
+    rewrite NT in S2. cbn [orb] in S2. now rewrite Z.eqb_sym. }
+  rewrite (PAR a _ _ Hf Aa SF), (PAR b _ _ Hm Ab SM). reflexivity.
+Qed.
+
+Lemma all_unphased_none : forall n ps, all_unphased n (with_ps ps (map (fun _ => None) (seq 0 n))) = true.
+Proof.
+  intros n ps. unfold all_unphased. apply forallb_forall. intros i _.
+  rewrite (call_of_with_ps ps (fun _ => None)). now destruct (i <? n).
+Qed.
+
+Lemma existsb_in : forall (A : Type) (f : A -> bool) l x, In x l -> f x = true -> existsb f l = true.
+Proof. intros A f l x Hx Hf. apply existsb_exists. eauto. Qed.
+
+(* the property for one variant of one family, for every transmission value / bipartition the DP may
+   settle on: what phase_column writes satisfies the predicate the harness evaluates on the real output *)
+Theorem phase_column_ok : forall n ts rk, wf_ped n ts rk ->
+  forall genetic gs covered t cp ws ps,
+  (forall a, (0 <= acost (part_count n ts) cp a < 2147483647)%Z) ->
+  phase_column n ts false genetic gs covered t cp = Some ws ->
+  c05_variant_ok n ts genetic gs (with_ps ps ws)
+                 (if accessible n ts false genetic gs covered then Some t else None) = true.
+Proof.
+  intros n ts rk WF genetic gs covered t cp ws ps B H.
+  unfold phase_column in H. unfold c05_variant_ok.
+  destruct (accessible n ts false genetic gs covered) eqn:ACC.
+  - (* the column is handed to the solver *)
+    destruct (get_alleles n ts t cp gs) as [| |l] eqn:GA; try discriminate.
+    inversion H; subst ws. clear H.
+    pose proof (get_alleles_mendelian n ts rk WF t cp gs l GA) as SR.
+    rewrite (mendel_calls_from_sr n ts gs t l ps (wf_idx _ _ _ WF) SR). cbn [andb].
+    unfold accessible in ACC. apply andb_true_iff in ACC. destruct ACC as [RET _].
+    unfold retained in RET. apply andb_true_iff in RET. destruct RET as [RET NCF].
+    apply andb_true_iff in RET. destruct RET as [_ NMS].
+    apply negb_true_iff in NCF. apply negb_true_iff in NMS. rewrite NCF, NMS. cbn [orb].
+    assert (FP : forced_phased ts gs (with_ps ps (map (fun i => write_call true (nth_error l i) (gof gs i)) (seq 0 n))) = true).
+    { unfold forced_phased. apply forallb_forall. intros tr Hin.
+      destruct (g_het (gof gs (tr_child tr)) && (g_hom (gof gs (tr_father tr)) || g_hom (gof gs (tr_mother tr)))) eqn:C;
+        [|reflexivity].
+      apply andb_true_iff in C. destruct C as [Het Hom]. apply orb_true_iff in Hom.
+      destruct (In_nth_error _ _ Hin) as [k Hn].
+      destruct (wf_idx _ _ _ WF tr Hin) as (_ & _ & Hc).
+      pose proof (forced_not_tie n ts rk WF t cp gs l k tr B GA Hn Het Hom) as F.
+      rewrite call_of_with_ps. apply Nat.ltb_lt in Hc. rewrite Hc. rewrite F.
+      set (v := forced_paternal gs tr) in *.
+      (* the written genotype is the input genotype, which is heterozygous *)
+      destruct (get_alleles_spec _ _ _ _ _ _ GA) as (a & Ha & _).
+      apply Nat.ltb_lt in Hc.
+      destruct (forced_child n ts rk WF t gs a k tr Ha Hn Het Hom) as [X0 X1]. fold v in X0, X1.
+      pose proof (allowed_geno n ts t gs a _ Ha Hc) as G. rewrite X0, X1 in G.
+      unfold write_call. rewrite !b2z_allele_ok, !b2z_eqb_1. cbn [andb].
+      rewrite G. replace (geno_eqb (gof gs (tr_child tr)) (gof gs (tr_child tr))) with true
+        by (symmetry; now apply geno_eqb_eq).
+      unfold g_het in Het. apply andb_true_iff in Het. destruct Het as [_ Het]. rewrite Het. reflexivity. }
+    rewrite FP. now destruct genetic.
+  - (* the row was removed (or is not accessible): nothing is phased *)
+    inversion H; subst ws. clear H.
+    assert (MC : mendel_calls_ok ts gs (with_ps ps (map (fun _ => None) (seq 0 n))) None = true).
+    { unfold mendel_calls_ok. apply forallb_forall. intros [k tr] _.
+      rewrite (call_of_with_ps ps (fun _ => None)). now destruct (tr_child tr <? n). }
+    rewrite MC. cbn [andb]. destruct (col_missing n gs || col_conflict ts gs) eqn:MCF.
+    + apply all_unphased_none.
+    + destruct genetic; [|reflexivity].
+      apply orb_false_iff in MCF. destruct MCF as [NMS NCF].
+      unfold forced_phased. apply forallb_forall. intros tr Hin.
+      destruct (g_het (gof gs (tr_child tr)) && (g_hom (gof gs (tr_father tr)) || g_hom (gof gs (tr_mother tr)))) eqn:C;
+        [|reflexivity].
+      exfalso. apply andb_true_iff in C. destruct C as [Het Hom].
+      destruct (wf_idx _ _ _ WF tr Hin) as (Hf & Hm & Hc).
+      destruct (wf_rank _ _ _ WF tr Hin) as [Rf _].
+      assert (N2 : 1 < n) by (destruct (Nat.eq_dec (tr_father tr) (tr_child tr)) as [E|E]; [rewrite E in Rf; lia|lia]).
+      unfold accessible, retained in ACC. rewrite NMS, NCF in ACC. cbn [negb andb orb] in ACC.
+      assert (HH : col_has_het n gs = true)
+        by (unfold col_has_het; apply (existsb_in _ _ _ (tr_child tr)); [apply in_seq; lia|exact Het]).
+      assert (HO : col_has_hom n gs = true).
+      { unfold col_has_hom. apply orb_true_iff in Hom. destruct Hom as [Hom|Hom].
+        - apply (existsb_in _ _ _ (tr_father tr)); [apply in_seq; lia|exact Hom].
+        - apply (existsb_in _ _ _ (tr_mother tr)); [apply in_seq; lia|exact Hom]. }
+      apply Nat.ltb_lt in N2. rewrite HH, HO, N2 in ACC. cbn [andb orb] in ACC.
+      rewrite orb_true_r in ACC. discriminate.
+Qed.
+
+(* conflicting / missing-genotype variants never reach the solver and are unphased in all members *)
+Theorem removed_rows_unphased : forall n ts ih genetic gs covered t cp,
+  col_missing n gs || col_conflict ts gs = true ->
+  phase_column n ts ih genetic gs covered t cp = Some (map (fun _ => None) (seq 0 n)).
+Proof.
+  intros n ts ih genetic gs covered t cp H. unfold phase_column, accessible, retained.
+  apply orb_true_iff in H. destruct H as [H|H]; rewrite H; cbn [negb]; rewrite ?andb_false_r; reflexivity.
+Qed.
+
+Lemma missing_false_all : forall n gs, col_missing n gs = false -> forall i, i < n -> g_none (gof gs i) = false.
+Proof.
+  intros n gs H i Hi. unfold col_missing in H.
+  apply (existsb_false_all _ _ _ H i). apply in_seq. lia.
+Qed.
+
+(* after find_phaseable_variants the solver's "Mendelian conflict" exception is unreachable: every
+   retained row admits an assignment for some transmission value (so found_valid_transmission_vector
+   holds for every bipartition), and get_alleles raises exactly when there is none *)
+Theorem retained_has_assignment : forall n ts rk ih gs, wf_ped n ts rk ->
+  (forall i, i < n -> g_none (gof gs i) = true \/ g_dipbi (gof gs i) = true) ->
+  retained n ts ih gs = true ->
+  exists t a, N.to_nat t < 4 ^ length ts /\ In a (allowed n ts t gs).
+Proof.
+  intros n ts rk ih gs WF GT R. unfold retained in R.
+  apply andb_true_iff in R. destruct R as [R NC]. apply andb_true_iff in R. destruct R as [_ NM].
+  apply negb_true_iff in NC. apply negb_true_iff in NM.
+  apply (conflict_iff_no_assignment n ts rk gs WF); [|exact NC].
+  intros i Hi. destruct (GT i Hi) as [G|G]; [|exact G].
+  rewrite (missing_false_all n gs NM i Hi) in G. discriminate.
+Qed.
+
+Theorem get_alleles_total : forall n ts rk, wf_ped n ts rk -> forall t cp gs,
+  (forall a, (0 <= acost (part_count n ts) cp a < UMAX)%Z) ->
+  allowed n ts t gs <> [] -> exists l, get_alleles n ts t cp gs = Alleles l.
+Proof.
+  intros n ts rk WF t cp gs B NE.
+  destruct (get_alleles n ts t cp gs) as [| |l] eqn:E; [| |eauto].
+  - exfalso. unfold get_alleles in E. rewrite (h2p_tab_all_some n ts rk WF t) in E. cbn [negb] in E.
+    destruct (best_assignment _ _ _) as [bc [a|]]; [destruct (Z.eqb bc UMAX)|]; discriminate.
+  - exfalso. apply NE. now apply (get_alleles_conflict_iff n ts rk WF t cp gs B).
+Qed.
+
+(* executable well-formedness check *)
+Lemma wf_pedb_sound : forall n ts rk, wf_pedb n ts rk = true -> wf_ped n ts rk.
+Proof.
+  intros n ts rk H. unfold wf_pedb in H.
+  apply andb_true_iff in H. destruct H as [H ND]. apply andb_true_iff in H. destruct H as [H1 H2].
+  rewrite forallb_forall in H1, H2.
+  assert (IDX : forall tr, In tr ts ->
+            (tr_father tr < n /\ tr_mother tr < n /\ tr_child tr < n) /\
+            (rk (tr_father tr) < rk (tr_child tr) /\ rk (tr_mother tr) < rk (tr_child tr))).
+  { intros tr Hin. specialize (H1 tr Hin).
+    repeat (apply andb_true_iff in H1; destruct H1 as [H1 ?]).
+    repeat match goal with X : (_ <? _) = true |- _ => apply Nat.ltb_lt in X end. auto. }
+  constructor.
+  - intros tr Hin. apply (IDX tr Hin).
+  - revert ND. generalize (map tr_child ts). induction l as [|x l IH]; intros ND; [constructor|].
+    apply andb_true_iff in ND. destruct ND as [N1 N2]. constructor; [|now apply IH].
+    intros Hx. apply negb_true_iff in N1. rewrite (existsb_in _ _ _ x Hx (Nat.eqb_refl x)) in N1. discriminate.
+  - intros tr Hin. apply (IDX tr Hin).
+  - intros i Hi. apply Nat.ltb_lt. apply H2. apply in_seq. lia.
+Qed.
+
+(* forced_without_reads, literally: a column with no read *)
+Theorem forced_without_reads : forall n ts rk, wf_ped n ts rk -> forall t gs l k tr,
+  get_alleles n ts t (cost_partition n ts t []) gs = Alleles l ->
+  nth_error ts k = Some tr ->
+  g_het (gof gs (tr_child tr)) = true ->
+  g_hom (gof gs (tr_father tr)) = true \/ g_hom (gof gs (tr_mother tr)) = true ->
+  nth_error l (tr_child tr) = Some (b2z (forced_paternal gs tr), b2z (negb (forced_paternal gs tr))).
+Proof.
+  intros n ts rk WF t gs l k tr H. eapply forced_not_tie; eauto.
+  intros a. rewrite acost_no_reads. lia.
+Qed.
